@@ -1,6 +1,20 @@
 //! An engine = a generator of case lines + an executor that runs one case line against the real code.
 use crate::rng::Rng;
 
+pub mod btree;
+pub mod cache;
+pub mod crash;
+pub mod fuzz;
+pub mod hist;
+pub mod pager;
+pub mod parse;
+pub mod plan;
+pub mod pool;
+pub mod sql;
+pub mod threads;
+pub mod tuple;
+pub mod value;
+pub mod wal;
 pub mod wire;
 
 #[derive(Clone, Copy, PartialEq, Eq, Debug)]
@@ -36,7 +50,45 @@ pub trait Engine {
 
 pub fn get(name: &str) -> Option<Box<dyn Engine>> {
     match name {
+        "btree" => Some(Box::new(btree::BtreeEngine)),
+        "cache" => Some(Box::new(cache::CacheEngine)),
+        "crash" => Some(Box::new(crash::CrashEngine)),
+        "fuzz" => Some(Box::new(fuzz::FuzzEngine)),
+        "hist" => Some(Box::new(hist::HistEngine)),
+        "pager" => Some(Box::new(pager::PagerEngine)),
+        "parse" => Some(Box::new(parse::ParseEngine)),
+        "plan" => Some(Box::new(plan::PlanEngine)),
+        "pool" => Some(Box::new(pool::PoolEngine)),
+        "sql" => Some(Box::new(sql::SqlEngine)),
+        "threads" => Some(Box::new(threads::ThreadsEngine)),
+        "tuple" => Some(Box::new(tuple::TupleEngine)),
+        "value" => Some(Box::new(value::ValueEngine)),
+        "wal" => Some(Box::new(wal::WalEngine)),
         "wire" => Some(Box::new(wire::WireEngine)),
         _ => None,
     }
+}
+
+/// (file name under lean/AxVerif/Generated, content) for every engine that extracts constants.
+pub fn all_generated() -> Vec<(&'static str, String)> {
+    [
+        btree::generated(),
+        cache::generated(),
+        crash::generated(),
+        fuzz::generated(),
+        hist::generated(),
+        pager::generated(),
+        parse::generated(),
+        plan::generated(),
+        pool::generated(),
+        sql::generated(),
+        threads::generated(),
+        tuple::generated(),
+        value::generated(),
+        wal::generated(),
+        wire::generated(),
+    ]
+    .into_iter()
+    .flatten()
+    .collect()
 }
